@@ -141,6 +141,17 @@ class ObjGen(lg.Gen):
                     c["dtor"].insert(1, ("echo", ("bin", "+", ("s", "note "), ("call", "note", [("i", r.randint(0, 9))]))))
                 if c["fields"] and c["fields"][-1][0] and r.random() < 0.5:
                     c["dtor"].insert(1, ("expr", ("sfset", name, "cnt" + name, ("bin", "-", ("sfld", name, "cnt" + name), ("i", 1)))))
+                # the destructor reads its object's fields by bare name, and may declare a local that takes the name of a field (its own
+                # or an inherited one): the local hides the field in this body only - not in the base's destructor that runs next
+                inst = [f for f in self.all_fields(name) if not f[0] and f[2] in ("int", "long", "bit", "boolean", "float", "string", "char")]
+                if inst and r.random() < 0.7:
+                    for f in r.sample(inst, min(2, len(inst))):
+                        c["dtor"].insert(1, ("echo", ("bin", "+", ("s", f[3] + "="), ("v", f[3]))))
+                    if r.random() < 0.7:
+                        f = r.choice(inst)
+                        k = len(c["dtor"]) - 1
+                        c["dtor"].insert(k, ("decl", False, "int", f[3], ("i", r.randint(100, 999))))
+                        c["dtor"].insert(k + 1, ("echo", ("bin", "+", ("s", "local " + f[3] + "="), ("v", f[3]))))
 
     def gen_methods(self, c):
         r = self.r
